@@ -172,6 +172,13 @@ class PipelineMonitor:
         if exc is not None:
             ctx.violation(f"process() raised {type(exc).__name__} on a ready engine", dict(case, error=repr(exc)[:300]), "no error", repr(exc)[:300])
             return
+        # the terms whose value depends on the engine (Linear, Function) are terms of *this* engine: they read its variables
+        for v in engine.variables:
+            for t in v.terms:
+                other = getattr(t, "engine", None)
+                if isinstance(t, (fl.Linear, fl.Function)) and other is not None and other is not engine:
+                    ctx.violation("a Linear / Function term of the engine evaluates against the variables of another engine", dict(case, variable=v.name, term=t.name), "the engine that holds the term", getattr(other, "name", None))
+                    return
         select = lambda activation, deg, loaded: c08.select(*c08.params_of(fl, activation), deg, loaded)  # noqa: E731
         rejected = self.rejected.get(id(engine), set())
         for bi, ri in rejected:
